@@ -457,7 +457,9 @@ def core_pool():
     t2 = ('tab', 12345, [(1, True, S('u32')), (2, False, S('u8')), (3, True, vec(S('i16'))), (300, True, s2)])
     t3 = named_table('Verif.Outer', [(5, True, t1), (6, True, vec(t1)), (70000, True, S('i8'))])
     t4 = ('tab', 0, [(1, True, h0), (2, True, ('opt', S('u8')))])
-    P += [t1, t2, t3, t4, st(t1, S('u16')), vec(t2)]
+    # a table declared with plain NOP_TABLE (hash 0), without handles
+    t0 = ('tab', 0, [(1, True, S('u32')), (2, True, ('str', 1)), (3, False, S('u8'))])
+    P += [t1, t2, t3, t4, t0, st(t1, S('u16')), vec(t2)]
     # handles at every nesting position (C15): variant alternatives, optional members of sequence
     # elements, map values, arrays, pairs, Result values, table entries, nested tables
     hv = ('var', [h0, S('u8'), h1])
